@@ -374,14 +374,19 @@ private def fragProg : List Stmt :=
   [.set (.var "x") (.binop .add (ci 2) (ci 3)),
    .ifS (.binop .and (.var "x") (.binop .gt (.var "x") (ci 9))) [.text "big"]
      [.ifS (.binop .or (.var "nope") (.var "x")) [.emit (.ife (.var "x") (.filter "upper" (.const (.str "ok")) []) none)] [.text "no"]],
-   .emit (.list [.var "x", .getattr (.var "m") "k"])]
+   .emit (.list [.var "x", .getattr (.var "m") "k"]),
+   .withS [(.var "w", .binop .mul (.var "x") (ci 2))]
+     [.forS (.var "a") (.list [.var "w", ci 7, .var "x"]) none
+        [.set (.var "x") (.var "a"), .emit (.var "x"), .text ":", .emit (.getattr (.var "loop") "revindex"),
+         .ifS (.getattr (.var "loop") "last") [.text "."] [.text ","]] []],
+   .emit (.var "x"), .emit (.test "defined" (.var "w") [])]
 
 example : MJ.Compile.simpleBlock fragProg = true := by decide +kernel
 example : (MJ.Compile.compileTemplate fragProg).isSome = true := by decide +kernel
-example : (renderTemplate defaultFuel [("m", .map [("k", .str "v")])] fragProg).toOption = some "OK[5, 'v']" := by
+example : (renderTemplate defaultFuel [("m", .map [("k", .str "v")])] fragProg).toOption = some "OK[5, 'v']10:3,7:2,5:1.5False" := by
   decide +kernel
 example : ((MJ.Compile.compileTemplate fragProg).bind fun code =>
-    (MJ.Vm.renderCode 1000 [("m", .map [("k", .str "v")])] code).toOption) = some "OK[5, 'v']" := by
+    (MJ.Vm.renderCode 1000 [("m", .map [("k", .str "v")])] code).toOption) = some "OK[5, 'v']10:3,7:2,5:1.5False" := by
   decide +kernel
 
 end Examples
